@@ -46,7 +46,7 @@ def build(rec):
     if list(c.inputs) != list(rec['i']):
         c.set_inputs(list(rec['i']))
     c.set_outputs(list(rec['o']))
-    for n, b in rec.get('b', {}).items():
+    for n, b in (rec.get('b') or {}).items():
         c.make_block(n, list(b['g']), list(b['o']), list(b['i']))
     return c
 
